@@ -373,3 +373,17 @@ CHECKS["C09"]["text"] += (" Layer B: BreakCycles.tla transcribes cycles.py (_bre
                           "real break_cycles (registered keys and target node table must be the model's) and random larger graphs run on the real "
                           "code are validated against the model and judged by Layer A (JudgeBreakCycles.tla); only Layer A says VIOLATION.")
 CHECKS["C09"]["technique"] += "; TLC model checking of an implementation-shaped TLA+ model of break_cycles with spec->code replay and code->spec validation"
+CHECKS["C05"]["text"] += (" Layer B: DDNNFEval.tla models one SimpleDDNNFEvaluator object (weights, cache_intermediate, set_evidence, "
+                          "_set_value / _reset_value, normalisation rule) with one action per public call; TLC checks InitCorrect, ResultsCorrect "
+                          "(value = ratio of weighted model counts), EvidenceCorrect, WeightsRestored and CacheSound over the smooth decision-DNNF "
+                          "of every boolean function of 2-3 atoms, weight vectors incl. 0/1/neutral, evidence lists, query sequences, probability "
+                          "and NSP; two mutated variants must fail. All explored behaviours are replayed on the real evaluator and random larger "
+                          "instances are validated by JudgeDDNNFEval.tla (Layer-A fractions = verdict, model values = drift).")
+CHECKS["C05"]["technique"] += "; TLC model checking of a TLA+ model of the d-DNNF evaluator with spec->code replay and code->spec validation"
+CHECKS["C06"]["text"] += (" Layer B: Propagate.tla models LogicFormula.propagate (the code behind propagate_evidence) with its set-valued work "
+                          "queue as nondeterminism; TLC checks Sound (every propagated value is entailed by the evidence under the well-founded "
+                          "valuation) over all graphs with 2 atoms + 2 compound nodes, cyclic ones included; the real call must end in one of the "
+                          "model's terminal states on every explored input and random larger graphs are judged by JudgePropagate.tla. A family of "
+                          "programs built around evidence propagation (several evidence literals of both signs on facts, AD heads and derived "
+                          "atoms, every atom queried, exactly-one ADs with negative evidence) is run under every option vector.")
+CHECKS["C06"]["technique"] += "; TLC model checking of a TLA+ model of evidence propagation with spec->code replay"
